@@ -158,7 +158,9 @@ def priced(price, weight, height):
 
 SCALAR_WATCHES = ['price + weight', 'weight + height', 'price * count', 'height - price', 'label + "-x"', 'label * 2',
                   'weight / count', 'price + height', 'count + 1000', 'str(price) + label', 'price - weight',
-                  'height * weight', 'count * 7919', 'label.upper() + label']
+                  'height * weight', 'count * 7919', 'label.upper() + label',
+                  # results that happen to be falsy are results all the same
+                  'count - 3', 'label[:0]', 'price < 0', 'None', 'weight * 0.0']
 
 
 def scalar_watch_leg(c, wd):
